@@ -19,11 +19,15 @@ def run(ctx):
     jobs = jobs_for(ctx)
     if ctx.quick:
         ctx.exhaustive = False
+    # FIFO / no orphan lock PER MUTEX with several mutex objects, holder slots that the next owner re-assigns from inside the
+    # hand-off, one ownership object per party (MutexMulti.tla; sequential, runs next to the finest-grain mixes)
+    wait_multi = ml.start_multi(ctx, ml.MULTI_QUICK[2:] if ctx.quick else ml.MULTI_QUICK + ml.MULTI_MORE, nvariants=3 if ctx.quick else 5)
     ml.run_mixes(ctx, rp, jobs, max_paths=500 if ctx.quick else 20000)
     # several rounds per party: FIFO and no-lost-request across re-arrivals, run-queue hand-over, helper-thread release
     ml.run_rounds_all(ctx, rp, ml.ROUNDS_QUICK[:3] if ctx.quick else ml.ROUNDS_QUICK + ml.ROUNDS_MORE, max_paths=300 if ctx.quick else 6000)
     # code -> spec: random schedules of mixes beyond the dumpable bound, validated as traces by TLC (FIFO, NoLostRequest)
     for k, cfg in enumerate(ml.EXPLORE_QUICK[1:] if ctx.quick else ml.EXPLORE_QUICK + ml.EXPLORE_MORE):
         ml.explore_validate(ctx, rp, cfg, "tv%d" % k, 40 if ctx.quick else 1000)
+    wait_multi()
     ctx.assume("compare_exchange_weak does not fail spuriously (x86-64 lock cmpxchg); weak CAS is executed as strong under the controlled scheduler")
     ctx.assume("finest grain: one round per party for up to 4 parties (Mutex.tla), 2-3 rounds for 2-3 parties (MutexRounds.tla)")
